@@ -159,6 +159,10 @@ class G:
                 for a in self.gen("num", env, 1):
                     if not re.fullmatch(r"[\d.]+", a):
                         out += [f"{a} > 1.5", f"{a} <= 2"]
+            if size >= 3:
+                for a in self.gen("num", env, size - 1):
+                    if not re.fullmatch(r"[\d.]+", a):
+                        out.append(f"{a} > 1.5")
             for sa, sb in self.splits(size - 1, 2):
                 A, B = self.gen("num", env, sa), self.gen("num", env, sb)
                 for a in A:
@@ -483,6 +487,49 @@ def c04_programs(backend, tier):
     ]
     for q in qs:
         add(q)
+    # systematic: every partial operation in every position of every lazy construct
+    partial_e = {   # event-level partial expressions and the guard that makes them defined
+        "first": ("e.PRIM('A').First().pt()", "e.PRIM('A').Count() > 0"),
+        "first_where": ("e.PRIM('A').Where(lambda j: j.pt() > 1.5).First().eta()", "e.PRIM('A').Where(lambda j: j.pt() > 1.5).Count() > 0"),
+        "first_sec": ("e.SEC('B').First().pt()", "e.SEC('B').Count() > 0"),
+    }
+    partial_j = {   # per-object partial expressions
+        "index": ("j.vals()[0]", "j.vals().Count() > 0"),
+        "index1": ("j.vals()[1]", "j.vals().Count() > 1"),
+        "firstv": ("j.vals().First()", "j.vals().Count() > 0"),
+        "first_inner": ("e.SEC('B').Where(lambda t: t.pt() > j.pt()).First().eta()", "e.SEC('B').Where(lambda t: t.pt() > j.pt()).Count() > 0"),
+    }
+    forms = [
+        "({X} if {X} > 1.5 else 0.0)",              # partial op in the test (unguarded: loud fault expected)
+        "(1.0 if {X} > 1.5 else 0.0)",
+        "({X} if {G} else 0.0)",                      # guarded: true arm
+        "(0.0 if not ({G}) else {X})",                # guarded: else arm
+        "({X} if {G} else {Y})",                      # both arms partial, only one guarded
+        "({G} and {X} > 1.5)",
+        "((not ({G})) or {X} > 1.5)",
+        "({X} > 1.5 and {G})",                        # guard too late: loud fault expected
+        "(({G}) and ({X} > 1.5 or {X} < 0))",
+        "({X} + 1 if {G} and {X} > 0 else -1.0)",
+    ]
+    ekeys = list(partial_e)
+    for i, (k, (x, g)) in enumerate(partial_e.items()):
+        y = partial_e[ekeys[(i + 1) % len(ekeys)]][0]
+        for f in forms:
+            body = f.format(X=x, G=g, Y=y)
+            add(f"Select(EventDataset('ds'), lambda e: {body})")
+        add(f"Select(Where(EventDataset('ds'), lambda e: {g}), lambda e: ({x}, e.PRIM('A').Count()))")
+        add(f"Select(Where(EventDataset('ds'), lambda e: {g} and {x} > 1.5), lambda e: {x})")
+        add(f"Select(EventDataset('ds'), lambda e: e.PRIM('A').Where(lambda j: {g}).Select(lambda j: {x} + j.pt()))")
+    jkeys = list(partial_j)
+    for i, (k, (x, g)) in enumerate(partial_j.items()):
+        y = partial_j[jkeys[(i + 1) % len(jkeys)]][0]
+        for f in forms:
+            body = f.format(X=x, G=g, Y=y)
+            add(f"Select(EventDataset('ds'), lambda e: e.PRIM('A').Select(lambda j: {body}))")
+        add(f"Select(EventDataset('ds'), lambda e: e.PRIM('A').Where(lambda j: {g}).Select(lambda j: {x}))")
+        add(f"Select(EventDataset('ds'), lambda e: e.PRIM('A').Where(lambda j: {g} and {x} > 1.5).Count())")
+        if "e.SEC" not in x:
+            add(f"Select(SelectMany(EventDataset('ds'), lambda e: e.PRIM('A')).Where(lambda j: {g}), lambda j: {x})")
     if backend in ("cms_aod", "cms_miniaod"):
         m = "globalTrack"
         cm = "Muons"
